@@ -74,6 +74,17 @@ def get_parts(mod: Any, tier: str) -> Any:
     return parts
 
 
+def shard_env(env: Dict[str, str], part: Any, j: int) -> Dict[str, str]:
+    """Environment of shard j: the last shard of every multi-shard part runs the interpreter in optimised mode (what `python -O` /
+    PYTHONOPTIMIZE=1 deployments do: assert statements vanish) - the properties hold there as well.  The harness itself uses no assert."""
+    e = dict(env)
+    if part.kind == "covguided":
+        e["VERIF_COVGUIDED"] = "1"
+    if part.shards >= 2 and j == part.shards - 1 and not os.environ.get("VERIF_NO_OPT_SHARD"):
+        e["PYTHONOPTIMIZE"] = "1"
+    return e
+
+
 def shard_main(argv: List[str]) -> int:
     pid, part_name, shard, nshards, tier, seed, out_path = argv
     shard, nshards, seed = int(shard), int(nshards), int(seed)
@@ -98,6 +109,8 @@ def shard_main(argv: List[str]) -> int:
         engine.DRIVERS[part.kind](ctx)
     except BaseException:  # noqa: BLE001
         rec.errors.append("shard crashed: " + traceback.format_exc()[-4000:])
+    if sys.flags.optimize:
+        rec.counters["cases_run_under_python_O"] += rec.evaluations
     with open(out_path, "w") as f:
         f.write(canon(rec.dump()))
     return 0
@@ -246,7 +259,7 @@ def check_main(pid: str, tier: str) -> int:
             part, j, outp = pending.pop(0)
             proc = subprocess.Popen(
                 [sys.executable, "-m", "vt.run", "--shard", pid, part.name, str(j), str(part.shards), tier, str(seed), outp],
-                cwd=ROOT, env=dict(env, VERIF_COVGUIDED="1") if part.kind == "covguided" else env, stdout=subprocess.DEVNULL,
+                cwd=ROOT, env=shard_env(env, part, j), stdout=subprocess.DEVNULL,
                 stderr=subprocess.DEVNULL if part.kind == "covguided" else None)        # libFuzzer / atheris chatter; shard problems travel in the shard's output file
             running.append((proc, part, j, outp, time.time()))
         reap(True)
